@@ -43,6 +43,7 @@ type vpSrvOpts struct {
 	MaxEncoderTable   uint32
 	ReadBuf           int // client's read buffer size limit (0 = unlimited)
 	NoPrefaceHandling bool
+	MaxHeaderBytes    int // http.Server.MaxHeaderBytes (0 = default, 1 MiB)
 }
 
 func vpSched(k int) func() WriteScheduler {
@@ -67,7 +68,7 @@ func vpSched(k int) func() WriteScheduler {
 
 // vpNewSrv starts a server connection. Must be called inside a bubble.
 func vpNewSrv(o vpSrvOpts, handler http.Handler) *vpSrv {
-	h1 := &http.Server{ErrorLog: log.New(io.Discard, "", 0)}
+	h1 := &http.Server{ErrorLog: log.New(io.Discard, "", 0), MaxHeaderBytes: o.MaxHeaderBytes}
 	h2 := &Server{
 		MaxConcurrentStreams:         o.MaxStreams,
 		MaxReadFrameSize:             o.MaxReadFrame,
